@@ -22,7 +22,7 @@ def main():
                 how.append(f"seed {r['seed']}: exit {r['exit']}")
         rows.append((name, pid, ", ".join(d.get("files", [])), " ".join(str(d.get("what_changed", "")).split())[:300],
                      " ".join(str(d.get("what_it_needs_to_manifest", "")).split())[:300],
-                     ", ".join(d.get("caught_by", [])) or "— (missed)", "; ".join(how), d.get("strengthened", "")))
+                     ", ".join(d.get("caught_by", [])) or "— (missed)", "; ".join(how) + (" — SUPERSEDED: " + d["superseded"] if d.get("superseded") else ""), d.get("strengthened", "")))
     out = ["# Seeded changes", "",
            "Each entry was produced by a fresh sub-agent that saw only the property text and a scratch worktree of /repo, and was confirmed",
            "by `tools/seedcheck.py` (scratch worktree: demonstration exits 0 unpatched / non-zero patched, the pinned 41-test suite passes",
